@@ -37,8 +37,28 @@ func newPair(t *testing.T, kind string, extraNames ...string) (*pair, error) {
 	defer pairMu.Unlock()
 	switch kind {
 	case "mux":
+		// "__wrap" among the extra names: the plugin-side broker's id counter is moved to just below the
+		// uint32 wrap before the very first id is reserved (so that the ids handed out across the wrap are
+		// all fresh: re-using an id that was in use a moment ago is not something 2^32 reservations later
+		// could ever do)
+		wrap := false
+		var names []string
+		for _, n := range extraNames {
+			if n == "__wrap" {
+				wrap = true
+			} else {
+				names = append(names, n)
+			}
+		}
+		extraNames = names
+		var wrapOnce sync.Once
 		np := &vp.NetP{Name: "kv", Label: "inproc", Core: p.core,
-			OnServer: func(b *plugin.MuxBroker) { p.plugMux = b },
+			OnServer: func(b *plugin.MuxBroker) {
+				p.plugMux = b
+				if wrap {
+					wrapOnce.Do(func() { plugin.VerifSetNextId(b, ^uint32(0)-2) })
+				}
+			},
 			OnClient: func(b *plugin.MuxBroker) { p.hostMux = b }}
 		ps := map[string]plugin.Plugin{"kv": np}
 		for _, n := range extraNames {
